@@ -14,7 +14,7 @@ Statement: {p['statement']}
 Quantifier: {p['quantifier']['text']}
 Code it is anchored in: {', '.join(p['anchors']['files'])}
 
-Useful API: `from awesomeyaml.builder import Builder; b = Builder(); b.add_source(yaml_text, raw_yaml=True, filename='x'); ...; root = b.build()` gives the merged node tree (a ConfigDict; children in `node._children`, raw flags in `node.ayns.node_info`); `from awesomeyaml.config import Config; cfg = Config(root)` (or `Config.build(text1, text2, raw_yaml=True, filename='x')`) evaluates it to plain data. Call targets for `!call:mod.func {{args}}` must be importable (you may put a small helper module next to your demo and add its directory to sys.path). NOTE: on this interpreter (CPython 3.12) most `!eval` expressions that read config names crash the interpreter — a pre-existing problem; avoid !eval in demonstrations unless the property is about it. {hint}
+Useful API: `from awesomeyaml.builder import Builder; b = Builder(); b.add_source(yaml_text, raw_yaml=True, filename='x'); ...; root = b.build()` gives the merged node tree (a ConfigDict; children in `node._children`, raw flags in `node.ayns.node_info`); `from awesomeyaml.config import Config; cfg = Config(root)` (or `Config.build(text1, text2, raw_yaml=True, filename='x')`) evaluates it to plain data. Call targets for `!call:mod.func {{args}}` must be importable (you may put a small helper module next to your demo and add its directory to sys.path). NOTE: run anything that uses `!eval` in a subprocess with a timeout (bytecode rewriting can crash the interpreter on exotic programs). {hint}
 
 TASK: produce TWO different, independent faulty changes (at different code sites / of different nature), each of which:
  (1) is a small, realistic edit a developer could plausibly make (an off-by-one, a wrong comparison, a dropped/reordered statement, a wrong default, a cache/aliasing slip, a "harmless" refactor that is not) to files under awesomeyaml/ — no changes to tests;
